@@ -344,8 +344,8 @@ def _exc_label(sim, e, typ) -> str:
     if label in ("KeyError:lat", "KeyError:lon"):
         label = "KeyError:lat/lon"
     cul = _culprit_of_entry(sim, e)
-    if (cul == "epd<0.1" or "cluster" in cul.lower()) and typ in ("CAM", "VAM") and not isinstance(ex, KeyError):
-        label += "/" + cul
+    if label == "Error" and cul != "?" and typ in ("CAM", "VAM"):
+        label += "/" + cul              # asn1tools' bare Error('Odd-length string') = a value below its element's lower bound
     return label
 
 
